@@ -43,6 +43,9 @@ WHAT = {
 }
 
 
+MAX_LINES = 6   # VIOLATION lines per run; more distinct signatures are only counted
+
+
 def gen():
     cs.gen()
 
@@ -89,8 +92,8 @@ def main(tier, replay):
     if broken:
         focus = cs.focus_functions(rep, ["close", "onLeave", "handleSession", "syncCall"]) if rep.get("ok") else []
         common.info("C06: %s -> targeted search around %s" % ("; ".join(broken)[:300], ",".join(focus)))
-        targeted, tlog = cs.drive(PID, "thorough" if quick else tier, 90 if quick else 480,
-                                  focus=focus, tag="-targeted", corpus=False)
+        targeted, tlog = cs.drive(PID, "thorough" if quick else tier, 40 if quick else 480,
+                                  focus=focus, tag="-targeted", corpus=False, shrink=not quick)
     harness_error = None
     if summary is None:
         harness_error = dlog
@@ -100,6 +103,7 @@ def main(tier, replay):
             failures += sm.get("failures", [])
     seen = set()
     new_failures = 0
+    suppressed = 0
     for f in failures:
         sig = f.get("signature", "?")
         if f.get("oracle") == "harness-error" or f.get("oracle") == "harness-timeout":
@@ -108,6 +112,9 @@ def main(tier, replay):
         if sig in seen:
             continue
         seen.add(sig)
+        if v.violations >= MAX_LINES and common.match_known(PID, sig) is None:
+            suppressed += 1      # further distinct signatures are kept in the evidence only
+            continue
         before = v.violations
         v.finding(sig, dict(property=PID, history=f.get("history"), oracle=f.get("oracle"),
                             detail=f.get("detail"), stderr_tail=f.get("stderr_tail"),
